@@ -6,7 +6,8 @@ from .core import SKIP, Scenario
 
 FUEL = 200000
 CLOSED_MARK = 4294967296
-PRIOSETS = [[1], [2, 1], [3, 2, 1], [5, 1], [7, 5, 3, 1], [70, 20, 10], [4, 3], [1000, 2, 1], [6, 5, 4, 3, 2, 1]]
+HUGE = 2 ** 64 - 1
+PRIOSETS = [[HUGE, 2, 1], [2 ** 63, 5], [1], [2, 1], [3, 2, 1], [5, 1], [7, 5, 3, 1], [70, 20, 10], [4, 3], [1000, 2, 1], [6, 5, 4, 3, 2, 1]]
 
 
 def ref_shares(ps, kind, H):
@@ -16,7 +17,7 @@ def ref_shares(ps, kind, H):
 
 
 def min_handlers(ps, kind):
-    for h in range(1, 400):
+    for h in range(1, 4000):
         d = ref_shares(ps, kind, h)
         if all(d.get(p, 0) > 0 for p in ps):
             return h
@@ -35,6 +36,10 @@ def enc_prio2(kind, H, cfg, ops):
 def gen_prio2_scenario(rng, tier, style=None, fault=False):
     ps = list(rng.choice(PRIOSETS))
     kind = rng.randrange(2)
+    if ps == [1000, 2, 1] and kind == 1:
+        ps = [100, 2, 1]
+    if max(ps) >= 2 ** 63:
+        kind = 0     # Rate's float64 arithmetic and the uint sum of priorities are outside their domain for such values
     hmin = min_handlers(ps, kind) or 1
     H = rng.choice([hmin, hmin, hmin + 1, hmin + rng.randrange(0, 6), 2 * hmin, rng.randrange(hmin, hmin + 30)])
     if rng.random() < 0.04:
@@ -54,10 +59,18 @@ def gen_prio2_scenario(rng, tier, style=None, fault=False):
     def stl():
         return True if every_settle else rng.random() < 0.6
 
+    if style == "alone":
+        p = rng.choice(ps)
+        for _ in range(H + 2):
+            ops.append((1, p, True))
+            nput += 1
+        for _ in range(H + 3):
+            ops.append((3, 0, True))
+        nops = 0
     if style == "saturated":
         for p in ps:
             for _ in range(H + 2):
-                ops.append((1, p, False if not every_settle else True))
+                ops.append((6, p, False))     # written before New(): the inputs have data from the very beginning
                 nput += 1
         ops.append((3, 0, True))
     for _ in range(nops):
@@ -86,7 +99,8 @@ def gen_prio2_scenario(rng, tier, style=None, fault=False):
             ops.append((2, p, stl()))
     if fault:
         k = rng.randrange(0, len(ops) + 1)
-        ops.insert(k, (5, rng.choice([1, 2, -1, -2, H, 1]), True))
+        k = max(k, sum(1 for o in ops if o[0] == 6))
+        ops.insert(k, (rng.choice([5, 5, 7]), rng.choice([1, 2, -1, -2, H, 1]), True))
     # finale: close everything, then take / release until everything must have been delivered
     for p in sorted(open_):
         ops.append((2, p, True))
@@ -111,7 +125,7 @@ class PrioTrace:
             vals.remove("no-termination")
         if "extra" in vals:
             k = vals.index("extra")
-            self.extra = [int(x) for x in vals[k + 1:k + 3]]
+            self.extra = [int(x) for x in vals[k + 1:k + 4]]
             vals = vals[:k]
         v = [int(x) for x in vals]
         self.error = None
@@ -131,3 +145,201 @@ class PrioTrace:
                 pos += 2 + n
             self.ops.append((tp, tx, olen, calls))
         self.closed, self.err = v[pos], v[pos + 1]
+
+
+# ------------------------------------------------------------------------------------------- derived views
+def replay_driver(meta, tr):
+    """re-derives, from a trace, what the driver held after every operation: returns a list of per-op dicts
+    {held: [priorities in take order], olen, taken: (p, x) or None, closed_seen}"""
+    held, out = [], []
+    puts = {}          # item value -> priority
+    nxt = 1
+    closed_in = set()
+    pre = [o for o in meta["ops"] if o[0] == 6]
+    for (code, arg, stl) in pre:
+        puts[nxt] = arg
+        nxt += 1
+    for (code, arg, stl), (tp, tx, olen, calls) in zip([o for o in meta["ops"] if o[0] != 6], tr.ops):
+        taken = None
+        closed_seen = False
+        if code == 1:
+            if arg not in closed_in:
+                puts[nxt] = arg
+                nxt += 1
+        elif code == 2:
+            closed_in.add(arg)
+        elif code == 3:
+            if tp == CLOSED_MARK:
+                closed_seen = True
+            elif tp != 0 or tx != 0:
+                taken = (tp, tx)
+                held.append(tp)
+        elif code == 4:
+            if held:
+                held.pop(arg % len(held))
+        out.append({"held": list(held), "olen": olen, "taken": taken, "closed_seen": closed_seen, "puts": dict(puts),
+                    "closed_in": set(closed_in), "settled": bool(stl), "calls": calls})
+    return out
+
+
+def prio_project(kind):
+    def project(sc, vals):
+        tr = PrioTrace(vals, len([o for o in sc.meta["ops"] if o[0] != 6]))
+        if tr.error is not None:
+            return ["error", tr.error]
+        allbuf = all(b for _, b in sc.meta["cfg"])
+        view = replay_driver(sc.meta, tr)
+        if kind == "C01":
+            return ["inflight", [len(v["held"]) + v["olen"] for v in view]]
+        if kind == "C02":
+            return ["delivered", [v["taken"] for v in view if v["taken"]]]
+        if kind == "C05":
+            return ["vector", [(sorted(v["held"]), v["olen"]) for v in view]]
+        if kind == "C06":
+            return ["progress", [(v["taken"] is not None, v["olen"]) for v in view]]
+        if kind == "C07":
+            first_closed = next((i for i, v in enumerate(view) if v["closed_seen"]), None)
+            return ["closure", first_closed, tr.closed, tr.err]
+        if kind == "C15":
+            return ["calls", [sorted(v["calls"]) for v in view] if allbuf else None, tr.closed, tr.err,
+                    [v["taken"] for v in view if v["taken"]]]
+        return ["full", tr.ops, tr.closed, tr.err]
+    return project
+
+
+def monitor_prio(kind):
+    def monitor(sc, ir):
+        if ir.verdict != "ok":
+            return [("implementation verdict %s %s" % (ir.verdict, ir.raw[-300:].replace("\n", " ")), None)]
+        m = sc.meta
+        tr = PrioTrace(ir.vals, len([o for o in m["ops"] if o[0] != 6]))
+        H = m["H"]
+        ps = sorted([p for p, _ in m["cfg"]], reverse=True)
+        kindn = 0 if m["divider"] == "Fair" else 1
+        key = "prio2:%s:%d:%s:%s" % (m["divider"], H, ps, m["style"])
+        if tr.error is not None:
+            exp = None
+            if H == 0:
+                exp = 2
+            elif any(ref_shares(ps, kindn, H).get(p, 0) == 0 for p in ps):
+                exp = 4
+            if exp == tr.error:
+                return []
+            return [("constructor returned error code %s for H=%d (shares %s)" % (tr.error, H, ref_shares(ps, kindn, H) if H else None), key)]
+        if any(ref_shares(ps, kindn, H).get(p, 0) == 0 for p in ps):
+            return [("constructor accepted H=%d although some priority's share is zero (%s)" % (H, ref_shares(ps, kindn, H)), key)]
+        view = replay_driver(m, tr)
+        shares = ref_shares(ps, kindn, H)
+        fails = []
+        if tr.noterm:
+            fails.append("the discipline did not terminate after all inputs were closed and everything was taken and released")
+        delivered = [v["taken"] for v in view if v["taken"]]
+        allputs = view[-1]["puts"] if view else {}
+        if kind == "C01":
+            worst = max([len(v["held"]) + v["olen"] for v in view] + [tr.extra[0] if tr.extra else 0])
+            if worst > H:
+                fails.append("%d items handed out and not released, HandlersQuantity is %d" % (worst, H))
+        elif kind == "C02":
+            seen = set()
+            last = {}
+            for (p, x) in delivered:
+                if x in seen:
+                    fails.append("item %d delivered twice" % x)
+                seen.add(x)
+                if allputs.get(x) != p:
+                    fails.append("item %d written to priority %s delivered with priority %d" % (x, allputs.get(x), p))
+                if last.get(p, 0) > x:
+                    fails.append("items of priority %d delivered out of order (%d after %d)" % (p, x, last[p]))
+                last[p] = max(last.get(p, 0), x)
+            if not m["fault"] and tr.closed == 1 and len(seen) != len(allputs):
+                fails.append("%d of %d written items were delivered before normal termination" % (len(seen), len(allputs)))
+        elif kind == "C05":
+            if m["style"] == "saturated" and not m["fault"]:
+                for i, v in enumerate(view):
+                    # saturation holds while every input still has undelivered data
+                    pend = {p: 0 for p in ps}
+                    for x, p in v["puts"].items():
+                        pend[p] += 1
+                    for (p, x) in [t["taken"] for t in view[:i + 1] if t["taken"]]:
+                        pend[p] -= 1
+                    if any(pend[p] <= v["olen"] for p in ps) or v["closed_in"]:
+                        break      # some input may have run dry: saturation (continuous since creation) is over
+                    cnt = {p: v["held"].count(p) for p in ps}
+                    for p in ps:
+                        if cnt[p] > shares.get(p, 0):
+                            fails.append("op %d: %d items of priority %d in processing, its share is %d" % (i, cnt[p], p, shares.get(p, 0)))
+                    if v["settled"] and v["olen"] == 0 and any(cnt[p] != shares.get(p, 0) for p in ps):
+                        fails.append("op %d: quiet and output empty under saturation but in-flight %s differs from the shares %s" % (i, cnt, shares))
+                    if fails:
+                        break
+        elif kind == "C06":
+            if not m["fault"]:
+                for i, v in enumerate(view):
+                    if not v["settled"]:
+                        continue
+                    got = [t["taken"] for t in view[:i + 1] if t["taken"]]
+                    undelivered = len(v["puts"]) - len(got) - v["olen"]
+                    if undelivered > 0 and not v["held"] and v["olen"] == 0:
+                        fails.append("op %d: %d written items undelivered, nothing in flight, yet the output is empty after settling" % (i, undelivered))
+                        break
+                if m["style"] == "alone":
+                    worst = max([len(v["held"]) + v["olen"] for v in view] + [0])
+                    if worst != H:
+                        fails.append("a priority alone in having data (%d items, nothing else in flight) obtained %d handlers, HandlersQuantity is %d"
+                                     % (m["nput"], worst, H))
+                if tr.closed == 1 and len(delivered) != len(allputs):
+                    fails.append("terminated with %d of %d written items delivered" % (len(delivered), len(allputs)))
+        elif kind == "C07":
+            for i, v in enumerate(view):
+                if v["closed_seen"]:
+                    got = [t["taken"] for t in view[:i + 1] if t["taken"]]
+                    if not m["fault"]:
+                        if len(v["closed_in"]) != len(ps):
+                            fails.append("op %d: output closed while an input is still open" % i)
+                        if v["held"]:
+                            fails.append("op %d: output closed while %d delivered items are unreleased" % (i, len(v["held"])))
+                        if len(got) != len(v["puts"]):
+                            fails.append("op %d: output closed with %d of %d items delivered" % (i, len(got), len(v["puts"])))
+                    break
+            if not m["fault"]:
+                if tr.closed != 1:
+                    fails.append("not terminated although every input was closed and emptied and every item released")
+                elif tr.err != 0:
+                    fails.append("Err() yielded a non-nil error (code %d) in normal mode" % tr.err)
+        elif kind == "C15":
+            if tr.extra and tr.extra[1] != 0:
+                fails.append("divider called with arguments violating its contract (%d calls: unsorted/duplicate priorities or nil map)" % tr.extra[1])
+            for v in view:
+                for (d, cps) in v["calls"]:
+                    if d > H:
+                        fails.append("divider called with dividend %d > HandlersQuantity %d" % (d, H))
+                    if any(q not in ps for q in cps):
+                        fails.append("divider called with an unknown priority %s" % (cps,))
+            if m["fault"]:
+                delta = next(a for (c, a, s_) in m["ops"] if c in (5, 7))
+                hit = tr.extra[2] if tr.extra and len(tr.extra) > 2 else 0
+                if hit == 1 and delta > 0 and tr.err != 1:
+                    fails.append("a division over-allocating by %d was made but ErrDividerBad was not reported (closed=%d err=%d)" % (delta, tr.closed, tr.err))
+                if tr.err == 1 and tr.closed != 1:
+                    fails.append("ErrDividerBad reported but the discipline did not terminate after releases")
+                worst = max([len(v["held"]) + v["olen"] for v in view] + [tr.extra[0] if tr.extra else 0])
+                if worst > H:
+                    fails.append("%d items in processing after a divider fault, HandlersQuantity is %d" % (worst, H))
+            elif tr.err not in (0, -1):
+                fails.append("error code %d reported although the divider obeys the sum rule" % tr.err)
+        return [("%s [%s H=%d inputs=%s style=%s ops=%d]" % (f, m["divider"], H, m["cfg"], m["style"], len(m["ops"])), key) for f in fails[:3]]
+    return monitor
+
+
+def prio_generate(fault_share=0.0, styles=None):
+    def generate(rng, tier):
+        n = 150 if tier == "quick" else 3000
+        return [gen_prio2_scenario(rng, tier, style=rng.choice(styles) if styles else None, fault=rng.random() < fault_share) for _ in range(n)]
+    return generate
+
+
+PRIO_RULE = ("driver scripts executed inside a testing/synctest bubble against the real discipline and against the model: priority sets "
+             "[1] [2,1] [3,2,1] [5,1] [7,5,3,1] [70,20,10] [4,3] [1000,2,1] [6..1]; Fair/Rate; H from the constructor minimum upwards (4% below it); "
+             "buffered / unbuffered / mixed inputs; operations put, close, take, release (k-th held item), optionally one injected divider fault; "
+             "each operation optionally followed by a settle (200 fake ns); styles mixed, saturated, sparse, single, unbuffered, closing; a finale "
+             "closes everything and takes/releases until termination; non-trivial = at least two items written and H accepted")
